@@ -499,7 +499,41 @@ func splitHelper(split, f *ssa.Function) bool {
 			}
 		}
 	}
-	return false
+	return pureScalarLeaf(f)
+}
+
+// pureScalarLeaf: a loop-free function over basic-typed values that neither stores nor calls
+// anything (a range test, a min/max): evaluated inline wherever it is used.
+func pureScalarLeaf(f *ssa.Function) bool {
+	basic := func(t types.Type) bool { _, ok := t.Underlying().(*types.Basic); return ok }
+	for _, p := range f.Params {
+		if !basic(p.Type()) {
+			return false
+		}
+	}
+	res := f.Signature.Results()
+	if res.Len() == 0 || len(f.FreeVars) > 0 {
+		return false
+	}
+	for i := 0; i < res.Len(); i++ {
+		if !basic(res.At(i).Type()) {
+			return false
+		}
+	}
+	for _, b := range f.Blocks {
+		for _, p := range b.Preds {
+			if isBackEdge(p, b) {
+				return false
+			}
+		}
+		for _, in := range b.Instrs {
+			switch in.(type) {
+			case *ssa.Store, *ssa.Call, *ssa.Go, *ssa.Defer, *ssa.Send, *ssa.MapUpdate, *ssa.Panic:
+				return false
+			}
+		}
+	}
+	return true
 }
 
 // packetCtorsOfSplit: the packet constructors called from split or its helpers.
